@@ -9,7 +9,7 @@ nothing else), <root>/<ID>/wt (a detached git worktree of /repo HEAD) and
 import json, os, subprocess, sys
 root = sys.argv[1]
 want = set(sys.argv[2:])
-tmpl = open('/verif/seeded/PROMPT.tmpl').read()
+tmpl = open(os.environ.get('SEED_TMPL','/verif/seeded/PROMPT.tmpl')).read()
 for l in open('/verif/properties.jsonl'):
     p = json.loads(l)
     if want and p['id'] not in want:
